@@ -35,6 +35,12 @@ OrderShape(st, pu, sm, i) ==
   ELSE sh
 OrderShapes == {"repeat", "older-late-arrival", "older-was-buffered", "other"}
 
+\* A failure's label = its shape, the situation in which the builder accepted the packets of the
+\* sample that came out wrongly (SampleBuilderOps.SampleContext) and the class of maxLate.
+SetOf(seq) == {seq[i] : i \in DOMAIN seq}
+Label(sh, e, i) == sh \o ":" \o SampleContext(e.stream, e.pushes, e.samples, SetOf(e.popCalls), SetOf(e.flushes), i, M)
+                      \o ":" \o WindowClass(e.maxLate)
+
 Preds(e) ==
   IF e.ev = "hang" THEN {P("C31", "CallsReturn", TRUE, FALSE)}
   ELSE IF e.ev # "session" THEN {}
@@ -44,16 +50,18 @@ Preds(e) ==
       sm == e.samples
       n  == Len(sm)
       prem == CompletenessPremise(st, pu, e.maxLate, e.delay = 0, e.flushAt, e.lastPushAt, e.firstPopAt, M)
-      \* shapes of the InOrder / NoPacketTwice failures of this session (empty when the predicate holds)
-      ordBad   == {OrderShape(st, pu, sm, i) : i \in {j \in 2..n : ~InOrder(st, sm[j - 1], sm[j], M)}}
-      twiceBad == IF NoPacketTwice(sm) THEN {} ELSE {TwiceShape(sm)}
+      \* labels of the InOrder / NoPacketTwice failures of this session (empty when the predicate holds)
+      ordBad   == {Label(OrderShape(st, pu, sm, i), e, i) : i \in {j \in 2..n : ~InOrder(st, sm[j - 1], sm[j], M)}}
+      twiceBad == {Label(ReuseShape(sm, i), e, i) : i \in {j \in 1..n : ReusesPacket(sm, j)}}
   IN {P("C31", "CallsReturn", TRUE, TRUE),
       P("C31", "ContiguousSameTs", n >= 1, \A i \in 1..n : ContiguousSameTs(st, pu, sm[i], M)),
       P("C31", "StartsAtHead",     n >= 1, \A i \in 1..n : StartsAtHead(st, sm[i])),
       PD("C31", "CompleteAfterFlush", prem, CompleteAfterFlush(st, sm),
-         IF WrapTag(st) # 0 THEN "seqwrap" ELSE "nowrap")}
-     \cup {PD("C31", "InOrder", n >= 2, sh \notin ordBad, sh) : sh \in OrderShapes}
-     \cup {PD("C31", "NoPacketTwice", n >= 1, sh \notin twiceBad, sh) : sh \in {"repeat", "overlap"}}
+         IF WrapTag(st) # 0 THEN "seqwrap" ELSE "nowrap"),
+      \* one instance per predicate for the count of evaluations, one per label for the failures
+      P("C31", "InOrder", n >= 2, TRUE), P("C31", "NoPacketTwice", n >= 1, TRUE)}
+     \cup {PD("C31", "InOrder", TRUE, FALSE, lb) : lb \in ordBad}
+     \cup {PD("C31", "NoPacketTwice", TRUE, FALSE, lb) : lb \in twiceBad}
 
 Init == l = 1 /\ viol = {} /\ cnt = EmptyCount
 
